@@ -370,8 +370,10 @@ NO_WANT = {'interrupt', 'destroy', 'notify_reply'}
 
 def dispatch_specs():
     """the top-level specification of handle_message: opcode numbers are the kernel's (enum fuse_opcode)"""
-    rl, wl = [], []
+    rl, wl, fl = [], [], []
     for (n, op) in OPCODES:
+        if op not in ('forget', 'batch_forget', 'interrupt', 'destroy', 'notify_reply', 'ioctl'):
+            fl.append('        &&& (hd.opcode == %d ==> wf_%s(hd, rem)%s)' % (n, 'readdir' if op == 'readdirplus' else op, ' && cap >= 16' if op in ('read', 'readdir', 'readdirplus') else ''))
         if op == 'lookup':
             r = 'reply_lookup(fs, hd, rem, minor, b)'
         elif op in ('setupmapping', 'removemapping'):
@@ -412,7 +414,19 @@ pub open spec fn want_msg<F: FileSystem>(fs: &F, has_req: bool, req: Seq<u8>) ->
         }))
     })
 }
-''' % ('\n'.join(rl), '\n'.join(wl))
+// a request the protocol requires an answer for, complete as the kernel sends it (the header says how long it is, every fixed part and every
+// NUL-terminated name is there).  FORGET, BATCH_FORGET, INTERRUPT and NOTIFY_REPLY have no answer; DESTROY's handler returns nothing (its reply
+// is covered by [once]/[emit]); IOCTL reads its input with Reader::read, whose model may fail for any reason - all six are left out here.
+pub open spec fn answer_due(cap: nat, req: Seq<u8>) -> bool {
+    req.len() >= 40 && ({
+        let hd = <InHeader as ByteValued>::sdecode(req.subrange(0, 40)); let rem = req.skip(40);
+        &&& hd.opcode != 2 && hd.opcode != 42 && hd.opcode != 36 && hd.opcode != 38 && hd.opcode != 41 && hd.opcode != 39
+        &&& (hd.len <= 0x10_1000 ==> ({
+%s
+        }))
+    })
+}
+''' % ('\n'.join(rl), '\n'.join(wl), '\n'.join(fl))
 
 SIZES = {}
 INFO = {}
@@ -581,7 +595,7 @@ impl<'a, S: BitmapSlice> ZeroCopyReader for ZcReader<'a, S> { }
            requires=REPLY_COMMON + ['T::ssize() < 0x1_0000',
                                     'emit_ok(old(self).w.id@, ok_reply(old(self).in_header.unique, (match out { Some(v) => v.sbytes(), None => Seq::<u8>::empty() }), (match data { Some(v) => v@, None => Seq::<u8>::empty() }))) // [C03.reply_ok.bytes]'],
            ensures=FRAME + ['''({ let m = ok_reply(old(self).in_header.unique, (match out { Some(v) => v.sbytes(), None => Seq::<u8>::empty() }), (match data { Some(v) => v@, None => Seq::<u8>::empty() }));
-             match r { Ok(n) => final(self).w.emitted@.len() == 1 && final(self).w.emitted@[0] == m && n == m.len(), Err(_) => final(self).w.emitted@.len() == 0 } }) // [C01.reply_ok.one]'''],
+             match r { Ok(n) => final(self).w.emitted@.len() == 1 && final(self).w.emitted@[0] == m && n == m.len() && n >= 16, Err(e) => final(self).w.emitted@.len() == 0 && e is EncodeMessage } }) // [C01.reply_ok.one]'''],
            splices=[
                     ('^', 'after', 'broadcast use axiom_sbytes_len, axiom_decode_encode, lemma_ios_concat;'),
                     ('|v|', 'closure', '|v: &T| -> (s: &[u8]) ensures s@ == v.sbytes(), s@.len() == T::ssize()'),
@@ -601,7 +615,7 @@ impl<'a, S: BitmapSlice> ZeroCopyReader for ZcReader<'a, S> { }
            requires=['old(self).w.primary@ && old(self).w.emitted@.len() == 0 && old(self).w.buf@.len() == 0 && old(self).w.cap@ <= MAX_REPLY_CAP && !is_notify(old(self).w.id@)',
                      'uniq(old(self).w.id@) == old(self).in_header.unique', 'may_reply(old(self).w.id@)', 'err_ok(err)',
                      'emit_ok(old(self).w.id@, err_reply(old(self).in_header.unique, err)) // [C03.reply_error.bytes]'],
-           ensures=FRAME + ['''match r { Ok(n) => final(self).w.emitted@.len() == 1 && final(self).w.emitted@[0] == err_reply(old(self).in_header.unique, err) && n == 16, Err(_) => final(self).w.emitted@.len() == 0 } // [C01.reply_error.one]'''],
+           ensures=FRAME + ['''match r { Ok(n) => final(self).w.emitted@.len() == 1 && final(self).w.emitted@[0] == err_reply(old(self).in_header.unique, err) && n == 16, Err(e) => final(self).w.emitted@.len() == 0 && e is EncodeMessage } // [C01.reply_error.one]'''],
            splices=[('^', 'after', 'broadcast use axiom_sbytes_len, axiom_decode_encode; proof { lemma_err_reply_frame(self.in_header.unique, err); reveal(errno_reply); }'),
                     ('||', 'closure', '|| -> (k: i32) ensures k == spec_kind_errno(err.skind())', '|| encode_io_error_kind('),
                     ('|_v|', 'closure', '|_v: usize| -> (q: usize) ensures q == 16')],
@@ -610,18 +624,18 @@ impl<'a, S: BitmapSlice> ZeroCopyReader for ZcReader<'a, S> { }
            requires=['old(self).w.primary@ && old(self).w.emitted@.len() == 0 && old(self).w.buf@.len() == 0 && old(self).w.cap@ <= MAX_REPLY_CAP && !is_notify(old(self).w.id@)',
                      'uniq(old(self).w.id@) == old(self).in_header.unique', 'may_reply(old(self).w.id@)', 'err_ok(err)',
                      'emit_ok(old(self).w.id@, err_reply(old(self).in_header.unique, err)) // [C03.reply_error.bytes]'],
-           ensures=FRAME + ['match r { Ok(n) => final(self).w.emitted@.len() == 1 && final(self).w.emitted@[0] == err_reply(old(self).in_header.unique, err) && n == 16, Err(_) => final(self).w.emitted@.len() == 0 }'],
+           ensures=FRAME + ['match r { Ok(n) => final(self).w.emitted@.len() == 1 && final(self).w.emitted@[0] == err_reply(old(self).in_header.unique, err) && n == 16, Err(e) => final(self).w.emitted@.len() == 0 && e is EncodeMessage }'],
            props=['C01']),
         Fn(SYNC, CTX, 'reply_error_explicit',
            requires=['old(self).w.primary@ && old(self).w.emitted@.len() == 0 && old(self).w.buf@.len() == 0 && old(self).w.cap@ <= MAX_REPLY_CAP && !is_notify(old(self).w.id@)',
                      'uniq(old(self).w.id@) == old(self).in_header.unique', 'may_reply(old(self).w.id@)', 'err_ok(err)',
                      'emit_ok(old(self).w.id@, err_reply(old(self).in_header.unique, err)) // [C03.reply_error.bytes]'],
-           ensures=FRAME + ['match r { Ok(n) => final(self).w.emitted@.len() == 1 && final(self).w.emitted@[0] == err_reply(old(self).in_header.unique, err) && n == 16, Err(_) => final(self).w.emitted@.len() == 0 }'],
+           ensures=FRAME + ['match r { Ok(n) => final(self).w.emitted@.len() == 1 && final(self).w.emitted@[0] == err_reply(old(self).in_header.unique, err) && n == 16, Err(e) => final(self).w.emitted@.len() == 0 && e is EncodeMessage }'],
            props=['C01']),
         Fn(SYNC, CTX, 'handle_attr_result',
            requires=REPLY_COMMON + ['result is Err ==> err_ok(result->Err_0)',
                                     'emit_ok(old(self).w.id@, (match result { Ok(v) => ok_reply(old(self).in_header.unique, attr_out(v.0, v.1).sbytes(), Seq::<u8>::empty()), Err(e) => err_reply(old(self).in_header.unique, e) })) // [C03.attr.bytes]'],
-           ensures=FRAME + ['r is Ok ==> final(self).w.emitted@.len() == 1'],
+           ensures=FRAME + ['r is Ok ==> final(self).w.emitted@.len() == 1 && r->Ok_0 >= 16 // [C01.attr.one]', 'r is Err ==> r->Err_0 is EncodeMessage // [C01.attr.err]'],
            props=['C03']),
     ]
     items.append(Raw(LEMMAS))
@@ -732,7 +746,7 @@ impl<'a, S: BitmapSlice> ZeroCopyReader for ZcReader<'a, S> { }
                     ('self.fs.batch_forget(ctx.context(), requests);', 'before',
                      'proof { let a = <BatchForgetIn as ByteValued>::sdecode(rem0.subrange(0, 8)); assert(requests@ =~= Seq::new(a.count as nat, |i: int| (ino_of::<F>(forget_one_at(rem0, i).nodeid), forget_one_at(rem0, i).nlookup))); }')]),
         Fn(SYNC, SRV, 'setupmapping', requires=vu_contract('setupmapping'), sig_subst=SIGREQ, external_body=EXT('setupmapping'), splices=[E0, ('^', 'after', 'proof { reveal(errno_reply); }')], props=['C01'], canary=not EXT('setupmapping')),
-        Fn(SYNC, SRV, 'removemapping', requires=vu_contract('removemapping'), sig_subst=SIGREQ, external_body=EXT('removemapping'), props=['C01'], canary=not EXT('removemapping'),
+        Fn(SYNC, SRV, 'removemapping', requires=vu_contract('removemapping'), sig_subst=SIGREQ, attrs=['#[verifier::loop_isolation(false)]'], external_body=EXT('removemapping'), props=['C01'], canary=not EXT('removemapping'),
            splices=[E0, ('^', 'after', 'proof { assert((1u32 << 20) == 0x10_0000u32) by (bit_vector); reveal(errno_reply); }'),
                     ('let mut requests = Vec::with_capacity(count as usize);', 'after', 'let ghost ctx0 = ctx;'),
                     ('for _i in 0..count {', 'replace', '''for _i in iter: 0..count
@@ -740,6 +754,7 @@ impl<'a, S: BitmapSlice> ZeroCopyReader for ZcReader<'a, S> { }
                     requests@.len() == _i, rem0.len() >= 4, convs_ok::<F>(), count as int * 16 <= 0x10_0000,
                     ctx.r.rem@ == rem0.skip(4 + 16 * (_i as int)),
                     rem0.len() >= 4 + 16 * (_i as int),
+                    wf_removemapping(hd0, rem0) ==> rem0.len() >= 4 + 16 * (count as int),
                     ctx.w == ctx0.w, ctx.in_header == ctx0.in_header, ctx.context == ctx0.context,
                     forall|j: int| 0 <= j < _i ==> requests@[j] == rm_one_at(rem0, j),
             {
@@ -775,6 +790,8 @@ impl<'a, S: BitmapSlice> ZeroCopyReader for ZcReader<'a, S> { }
                      '''r.rem@.len() >= 56 ==> forall|v: ServerVersion| ({ let a = <InitIn as ByteValued>::sdecode(r.rem@.subrange(40, 56)); v.major == a.major && v.minor == a.minor }) ==> #[trigger] self.vers.may_store(v) // [C12.vers]''',
                      'forall|b: Seq<u8>| #[trigger] emit_ok(w.id@, b) <==> reply_msg(&self.fs, self.vers.cur().minor, vu_req is Some, w.cap@, r.rem@, b) // [C03.dispatch]'],
            splices=[('^', 'after', 'broadcast use axiom_sbytes_len, lemma_err_reply_frame; let ghost req0 = r.rem@; proof { if req0.len() >= 56 { assert(req0.skip(40).subrange(0, 16) =~= req0.subrange(40, 56)); } reveal(errno_reply); assert((1u32 << 20) == 0x10_0000u32) by (bit_vector); assert(MAX_BUFFER_SIZE == 0x10_0000u32); }')],
+           ensures=['(res is Ok && answer_due(w.cap@, r.rem@)) ==> res->Ok_0 >= 16 // [C01.handle_message.replied]',
+                    '(res is Err && answer_due(w.cap@, r.rem@)) ==> res->Err_0 is EncodeMessage // [C01.handle_message.answered]'],
            props=['C01'], canary=True),
     ]
     NREQ = ['w.fresh_notify()', 'may_reply(w.id@)']
@@ -837,12 +854,40 @@ impl<'a, S: BitmapSlice> ZeroCopyReader for ZcReader<'a, S> { }
             assert(old(cursor).buf@ + e + dh + d.name@ + pad =~= old(cursor).buf@ + (e + dh + d.name@ + pad));
         }''')],
                     props=['C03', 'C16'], canary=True))
+    # "every request that requires a reply gets exactly one": a handler of a replying opcode may return Ok only after one complete reply was
+    # written (Ok carries the number of bytes of that reply; at least the 16-byte header).  FORGET / BATCH_FORGET / INTERRUPT / NOTIFY_REPLY have none.
+    NOREPLY_OPS = {'forget', 'batch_forget', 'interrupt', 'notify_reply', 'destroy'}       # destroy returns nothing (its reply is checked by [once]/[emit])
+    opnames = set(n for (_, n) in OPCODES) | {'do_rename', 'do_readdir'}
+
+    def add_replied(its):
+        for it in its:
+            if isinstance(it, Group):
+                add_replied(it.items)
+            if isinstance(it, Fn) and not it.external_body:
+                # annotation only: the eta-expanded constructor closure (rule R1) gets its postcondition (the value it builds)
+                it.body_resub = list(it.body_resub) + [MAPERR_ANNOT]
+            if isinstance(it, Fn) and it.scope == SRV and it.name in opnames and it.name not in NOREPLY_OPS and not it.external_body:
+                it.ensures = list(it.ensures) + ['%s is Ok ==> %s->Ok_0 >= 16 // [C01.%s.replied]' % (it.ret_name or 'r', it.ret_name or 'r', it.name)]
+                wf = {'do_rename': 'wf_do_rename(ctx.in_header, ctx.r.rem@, msg_size as int)', 'do_readdir': 'wf_readdir(ctx.in_header, ctx.r.rem@) && ctx.w.cap@ >= 16',
+                      'readdirplus': 'wf_readdir(ctx.in_header, ctx.r.rem@) && ctx.w.cap@ >= 16', 'readdir': 'wf_readdir(ctx.in_header, ctx.r.rem@) && ctx.w.cap@ >= 16',
+                      # READ / READDIR[PLUS] split the reply buffer at 16 before anything else: a reply buffer without room for a header gets no reply at all
+                      'read': 'wf_read(ctx.in_header, ctx.r.rem@) && ctx.w.cap@ >= 16'}.get(it.name, 'wf_%s(ctx.in_header, ctx.r.rem@)' % it.name)
+                # IOCTL is left out: it reads its input with Reader::read, whose model may fail for any reason (Err(_) => true)
+                if os.environ.get('SRV_ANSWERED', '1') == '1' and it.name != 'ioctl' and any(wf.split(' && ')[0] in c for c in it.requires):
+                    rn = it.ret_name or 'r'
+                    it.ensures = list(it.ensures) + ['(%s is Err && %s) ==> %s->Err_0 is EncodeMessage // [C01.%s.answered]' % (rn, wf, rn, it.name)]
+    if os.environ.get('SRV_REPLIED', '1') == '1':
+        add_replied(items)
     return Unit('server', items, preludes=['base.rs', 'stdmodel.rs', 'transport.rs', 'server.rs'],
                 generic_tags={'cap': ['C02'], 'touch': ['C02'], 'ids': ['C02'], 'emit': ['C03'], 'frame': ['C01'], 'noreply': ['C01'],
                               'once': ['C01'], 'assert': ['C01'], 'store': ['C12']},
                 notes='\n'.join(notes))
 
 
+# annotation only: the eta-expanded constructor closure (rule R1) gets its postcondition (the value it builds)
+MAPERR_ANNOT = (r'\.map_err\(\|e\| Error::(EncodeMessage|DecodeMessage)\(e\)\)',
+                r'.map_err(|e: io::Error| -> (q: Error) ensures q == Error::\1(e) { Error::\1(e) })',
+                'every: closure |e| Error::X(e) annotated with its result (no code change)')
 HCLOSURE = ('|v|', 'closure', '|v: F::Handle| -> (q: u64) ensures q == fh_u64::<F>(v)')
 HANDLER_SPLICES = {
     'open': [HCLOSURE], 'opendir': [HCLOSURE],
